@@ -25,3 +25,7 @@ class Effect:
 
     def __hash__(self):
         return hash(("Effect", self.tag))
+
+
+# non-ASCII alias: the stock unpickler decodes GLOBAL names as UTF-8, pickletools as ASCII
+globals()["s\u00ednk"] = sink
